@@ -41,6 +41,7 @@ def setup(ctx):
     ctx.require("monitor", "effect_probes", 100)
     ctx.require("monitor", "decisions_object", 2000)
     ctx.require("monitor", "decisions_wired", 1000)
+    ctx.require("monitor", "wired_through_serve_command", 40)
     ctx.require("monitor", "refusals_seen", 200)
     ctx.require("monitor", "admissions_seen", 200)
     ctx.require("monitor", "live_decisions", 3)
@@ -302,26 +303,40 @@ def write_toml(path, cfg, docroot):
         tomli_w.dump(data, f)
 
 
-def run_wired(ctx, cfg, peers, base):
-    """TOML -> ServerConfig -> (as __main__._serve does) start_server -> protocol."""
+def run_wired(ctx, cfg, peers, base, via="toml"):
+    """TOML -> ServerConfig -> (as __main__._serve does) start_server -> protocol; with via="serve" the command
+    line `nauyaca serve --config file` itself does all of that (create_server stubbed)."""
     from pathlib import Path
 
     from nauyaca.server.config import ServerConfig
+
+    from vf.sim import capture_serve
 
     allow, deny, malformed, hostbits = model_lists(cfg)
     path = os.path.join(base, "conf.toml")
     write_toml(path, cfg, os.path.join(base, "doc"))
     try:
-        sc = ServerConfig.from_toml(Path(path))
-        with contextlib.redirect_stdout(io.StringIO()):
-            cap = capture_factory(
-                dict(log_level="CRITICAL", enable_rate_limiting=sc.enable_rate_limiting, rate_limit_config=sc.get_rate_limit_config(),
-                     access_control_config=sc.get_access_control_config(), certificate_auth_config=sc.get_certificate_auth_config()),
-                sc,
-            )
+        if via == "serve":
+            from vf.gen import certs
+
+            ident = certs.identity("capture-server", "ec")
+            cap = capture_serve(["--config", path, "--cert", ident.certfile, "--key", ident.keyfile, "--log-level", "CRITICAL"])
+            ctx.count("monitor", "wired_through_serve_command")
+            if "factory" not in cap:
+                if "onfiguration error" not in cap["output"]:
+                    ctx.anomaly(f"serve command did not start: {cap['output'][-80:]!r}")
+                raise ValueError(cap["output"][-120:])
+        else:
+            sc = ServerConfig.from_toml(Path(path))
+            with contextlib.redirect_stdout(io.StringIO()):
+                cap = capture_factory(
+                    dict(log_level="CRITICAL", enable_rate_limiting=sc.enable_rate_limiting, rate_limit_config=sc.get_rate_limit_config(),
+                         access_control_config=sc.get_access_control_config(), certificate_auth_config=sc.get_certificate_auth_config()),
+                    sc,
+                )
     except ValueError:
         if not (malformed or hostbits):
-            ctx.violation(f"valid-config-rejected:via=toml:shape={shape(cfg)}", "start-up refused a configuration whose entries are all valid", {"config": cfg})
+            ctx.violation(f"valid-config-rejected:via={via}:shape={shape(cfg)}", "start-up refused a configuration whose entries are all valid", {"config": cfg})
         ctx.count("outcome", "startup-refused:" + ("malformed" if malformed else "hostbits"))
         return
     finally:
@@ -329,7 +344,7 @@ def run_wired(ctx, cfg, peers, base):
 
         quiet_logs()
     if malformed:
-        ctx.violation("bad-entry-ignored:via=toml", "a list entry that cannot be interpreted did not prevent start-up", {"config": cfg})
+        ctx.violation(f"bad-entry-ignored:via={via}", "a list entry that cannot be interpreted did not prevent start-up", {"config": cfg})
         return
     factory = cap["factory"]
     for peer, pos in peers:
@@ -346,7 +361,7 @@ def run_wired(ctx, cfg, peers, base):
         admit = stream.startswith(b"20 ")
         if status is None or (not admit and status not in (53,) and not stream.startswith(b"5")):
             pass
-        judge(ctx, cfg, "toml", peer, pos, admit, None if admit else status, {"stream": stream[:60]})
+        judge(ctx, cfg, via, peer, pos, admit, None if admit else status, {"stream": stream[:60]})
 
 
 def run_live(ctx, base):
@@ -408,7 +423,9 @@ def run(ctx):
                 peers = [peers[i] for i in chosen]
             run_object(ctx, cfg, peers)
             if i % 3 == 0 or i >= n:
-                run_wired(ctx, cfg, peers[:: 2 if ctx.quick() else 1], base)
+                run_wired(ctx, cfg, peers[:: 2 if ctx.quick() else 1], base, via="serve" if (i // 3) % 2 or i >= n else "toml")
+                if i >= n:
+                    run_wired(ctx, cfg, peers[:: 2 if ctx.quick() else 1], base)
             if i % 5 == 1 or i >= n:
                 run_effect(ctx, cfg, peers)
             ctx.count("shape", shape(cfg))
